@@ -132,15 +132,24 @@ def resolveAttrs (scope : List (Pfx × Str)) : List (Str × Str) → Option (Lis
     | some n, some r' => if xmlChars v then some ((n, v) :: r') else none
     | _, _ => none
 
-/-- reading state: open elements (innermost first) and the finished document element -/
+/-- reading state: open elements (innermost first), the finished document
+element, and whether the previous token was character data ending in `\r`
+(a following `\n` then belongs to the same line end, XML 1.0 §2.11) -/
 structure PState where
   stack : List Frame
   root : Option Node
+  lastCR : Bool := false
 
-def closeFrame (f : Frame) : Node :=
-  .elem f.name f.attrs (f.kidsRev.reverse.map fun
-    | .text t => .text (normEol t)
-    | n => n)
+def closeFrame (f : Frame) : Node := .elem f.name f.attrs f.kidsRev.reverse
+
+/-- character data as the processor reports it: line ends normalised, also
+across two adjacent tokens -/
+def eolChunk (lastCR : Bool) (s : Str) : Str :=
+  normEol (if lastCR && s.head? == some '\n' then s.drop 1 else s)
+
+def addChunk (lastCR : Bool) (s : Str) (kidsRev : List Node) : List Node :=
+  let t := eolChunk lastCR s
+  if t.isEmpty then kidsRev else addText t kidsRev
 
 /-- one token; `none` = not (namespace-)well-formed -/
 def pStep (st : PState) : Tok → Option PState
@@ -154,25 +163,30 @@ def pStep (st : PState) : Tok → Option PState
       let scope := applyDecls parentScope decls
       match resolveElem scope w, resolveAttrs scope attrs with
       | some n, some as =>
-        if nodupKeys as then some { st with stack := ⟨w, n, as, [], scope⟩ :: st.stack } else none
+        if nodupKeys as then some { st with stack := ⟨w, n, as, [], scope⟩ :: st.stack, lastCR := false } else none
       | _, _ => none
   | .text s =>
     match st.stack with
     | [] => if s.all isXmlSpace then some st else none        -- only blanks outside the root
-    | f :: r => if xmlChars s then some { st with stack := { f with kidsRev := addText s f.kidsRev } :: r } else none
+    | f :: r =>
+      if xmlChars s then
+        some { st with stack := { f with kidsRev := addChunk st.lastCR s f.kidsRev } :: r,
+                       lastCR := s.getLast? == some '\r' }
+      else none
   | .raw s =>
     if !s.all isXmlSpace then none                            -- unescaped, so only blanks are safe
     else match st.stack with
       | [] => some st
-      | f :: r => some { st with stack := { f with kidsRev := addText s f.kidsRev } :: r }
+      | f :: r => some { st with stack := { f with kidsRev := addChunk st.lastCR s f.kidsRev } :: r,
+                                 lastCR := s.getLast? == some '\r' }
   | .close w =>
     match st.stack with
     | [] => none
     | f :: r =>
       if f.wname != w then none
       else match r with
-        | [] => some { stack := [], root := some (closeFrame f) }
-        | g :: r' => some { st with stack := { g with kidsRev := closeFrame f :: g.kidsRev } :: r' }
+        | [] => some { stack := [], root := some (closeFrame f), lastCR := false }
+        | g :: r' => some { st with stack := { g with kidsRev := closeFrame f :: g.kidsRev } :: r', lastCR := false }
 
 def pRun : PState → List Tok → Option PState
   | st, [] => some st
@@ -183,8 +197,8 @@ def pRun : PState → List Tok → Option PState
 
 /-- the document element the token list denotes, if it is namespace-well-formed -/
 def infoset (toks : List Tok) : Option Node :=
-  match pRun ⟨[], none⟩ toks with
-  | some ⟨[], some n⟩ => some n
+  match pRun ⟨[], none, false⟩ toks with
+  | some ⟨[], some n, _⟩ => some n
   | _ => none
 
 def nsWellFormed (toks : List Tok) : Bool := (infoset toks).isSome
